@@ -297,6 +297,28 @@ impl<'tcx> Ctx<'tcx> {
                                     }
                                     Rvalue::Use(Operand::Constant(cc), ..) => {
                                         let cty = cc.const_.ty();
+                                        // `&Family::L2VPN_EVPN`: name of the associated constant and, for a
+                                        // newtype over an integer, its value
+                                        if let mir::Const::Unevaluated(iu, _) = cc.const_ {
+                                            if iu.promoted.is_none() {
+                                                let _ = write!(o, ",\"cdef\":{}", jstr(&self.name(iu.def)));
+                                            }
+                                        }
+                                        let newtype_int = match cty.kind() {
+                                            ty::Adt(a, ga) if a.is_struct() && a.non_enum_variant().fields.len() == 1 => {
+                                                let f = a.non_enum_variant().fields.iter().next().unwrap();
+                                                matches!(f.ty(tcx, ga).kind(), ty::Int(_) | ty::Uint(_))
+                                            }
+                                            _ => false,
+                                        };
+                                        if newtype_int {
+                                            let env = TypingEnv::post_analysis(tcx, u.def);
+                                            if let Some(si) = cc.const_.try_eval_scalar_int(tcx, env) {
+                                                let size = si.size();
+                                                let _ = write!(o, ",\"v\":{}", si.to_uint(size) as i128);
+                                                break 'outer;
+                                            }
+                                        }
                                         if matches!(cty.kind(), ty::Bool | ty::Int(_) | ty::Uint(_) | ty::Char) {
                                             let env = TypingEnv::post_analysis(tcx, u.def);
                                             if let Some(si) = cc.const_.try_eval_scalar_int(tcx, env) {
